@@ -32,6 +32,17 @@ def G(name, *edits):
 
 
 VARIANTS = [
+    B("C13 revert F49: output required ignores options.no_default", "C13", "R13c",
+      (GEN, """                if not options.no_default and not field.no_default \\
+                        and not (field.defer_default or options.defer_default):""",
+       """                if not field.no_default and not (field.defer_default or options.defer_default):""")),
+    B("C13 revert F50: properties keyed by the parser's table key", "C13", "R13c",
+      (GEN, """        for key, field in parser.fields.items():""", """        for name, field in parser.fields.items():"""),
+      (GEN, """            name = field.name
+""", "")),
+    G("benign C13: the declared name used directly as the property key",
+      (GEN, "            properties[name] = value", "            properties[field.name] = value"),
+      (GEN, "                required.append(name)\n            elif self.output:", "                required.append(field.name)\n            elif self.output:")),
     # ------------------------------------------------------------------ round 4 (second batch)
     B("C04 revert F48: exponent text expanded without a digit bound", "C04", "R04j",
       (TRANS, """        if self.MAX_INT_DIGITS and data.is_finite() and data.adjusted() >= self.MAX_INT_DIGITS:
@@ -1308,7 +1319,8 @@ VARIANTS = [
       (GEN, """                # will count options.ignore_required in
                 required.append(name)
             elif self.output:
-                if not field.no_default and not (field.defer_default or options.defer_default):
+                if not options.no_default and not field.no_default \\
+                        and not (field.defer_default or options.defer_default):
                     # if field has default, the value is required in the output data
                     # (a deferred default is not applied until the attribute is read)
                     required.append(name)
@@ -1318,7 +1330,8 @@ VARIANTS = [
             data.update(required=required)""", """                # will count options.ignore_required in
                 required_names.append(name)
             elif self.output:
-                if not field.no_default and not (field.defer_default or options.defer_default):
+                if not options.no_default and not field.no_default \\
+                        and not (field.defer_default or options.defer_default):
                     # if field has default, the value is required in the output data
                     # (a deferred default is not applied until the attribute is read)
                     required_names.append(name)
